@@ -241,3 +241,103 @@ crate::harnesses! {
     #[kani::stub(lc3_ensemble::sim::device::BufferedDisplay::try_output, stub_try_output)]
     fn c32_add_add_remove_add() { ops(&[ADD, ADD, REMOVE, ADD]) }
 }
+
+/// (b)/(c) precedence through the simulator's real `read_mem` / `write_mem` with the REAL device hub:
+/// one internal register mapped at a symbolic address, one recording device on a symbolic port.
+pub mod mm {
+    use super::{RecCall, RecDev, LAST, NCALLS};
+    use crate::kstep::*;
+    use crate::nd;
+    use lc3_ensemble::sim::mem::Word;
+    use lc3_ensemble::sim::{InternalRegister, MemAccessCtx};
+
+    fn body() {
+        let cfg = Cfg { strict: Some(false), real_traps: None, ignore_priv: None, debug_frames: false, alloca: 0, interrupts: false };
+        let (mut sim, _script) = any_sim(&cfg);
+        let port: u16 = nd::any();
+        let added = sim.device_handler.add_device(RecDev { tag: 9 }, &[port]).is_ok();
+        assert!(added == (port >= 0xFE00 && ![0xFE00u16, 0xFE02, 0xFE04, 0xFE06].contains(&port)), "add_device acceptance");
+        let ra: u16 = nd::any();
+        let which: u8 = nd::any();
+        nd::assume(which < 3);
+        let reg = match which { 0 => InternalRegister::PC, 1 => InternalRegister::PSR, _ => InternalRegister::SavedSP };
+        let m1 = sim.mmap_internal(ra, reg);
+        assert!(m1.is_ok() == (ra >= 0xFE00), "mmap_internal succeeds exactly for I/O addresses");
+        let mapped = m1.is_ok();
+        // a second mapping at the same address is refused and changes nothing
+        let m2 = sim.mmap_internal(ra, InternalRegister::MCR);
+        assert!(m2.is_err(), "mmap_internal accepted an occupied / non-I/O address");
+        std::mem::forget(m1);
+        std::mem::forget(m2);
+        let x: u16 = nd::any();
+        let ctx = MemAccessCtx { privileged: true, strict: false, io_effects: nd::any(), track_access: false };
+        let before_x = pin_mem(&mut sim, x);
+        let (pc0, psr0, ssp0) = (sim.pc, sim.psr().get(), sim.verif_saved_sp().get());
+        let do_write: bool = nd::any();
+        unsafe { LAST = None; NCALLS = 0; }
+        if !do_write {
+            let r = sim.read_mem(x, ctx);
+            let got = match &r { Ok(w) => *w, Err(_) => { assert!(false, "privileged read failed"); return; } };
+            if mapped && x == ra {
+                let want = match which { 0 => pc0, 1 => psr0, _ => ssp0 };
+                assert!(got == Word::new_init(want), "read at a mapped address did not return the internal register");
+                assert!(unsafe { LAST.is_none() }, "read at a mapped address also reached a device");
+            } else if added && x == port {
+                assert!(got == Word::new_init(0x1100 + 9), "read at a device port did not return the device's answer");
+                assert!(unsafe { LAST } == Some(RecCall { tag: 9, write: false, addr: x, arg: ctx.io_effects as u16 }), "device read arguments");
+            } else {
+                assert!(got == before_x, "read at an unowned address changed / invented data");
+                assert!(unsafe { LAST.is_none() }, "read at an unowned address reached a device");
+            }
+            std::mem::forget(r);
+        } else {
+            let d: u16 = nd::any();
+            let r = sim.write_mem(x, Word::new_init(d), ctx);
+            assert!(r.is_ok(), "privileged write failed");
+            if mapped && x == ra {
+                match which {
+                    0 => assert!(sim.pc == d, "write to the mapped PC"),
+                    1 => {
+                        let cc = d & 7;
+                        let cc = if cc == 1 || cc == 2 || cc == 4 { cc } else { 2 };
+                        assert!(sim.psr().get() == (d & 0x8700) | cc, "write to the mapped PSR (masked, condition code kept one-hot)");
+                    }
+                    _ => assert!(sim.verif_saved_sp() == Word::new_init(d), "write to the mapped saved SP"),
+                }
+                assert!(unsafe { LAST.is_none() }, "write at a mapped address also reached a device");
+                assert!(sim.mem[x] == Word::new_init(d), "mirror cell of a mapped register");
+            } else if added && x == port {
+                assert!(unsafe { LAST } == Some(RecCall { tag: 9, write: true, addr: x, arg: d }), "device write arguments");
+                assert!(sim.mem[x] == Word::new_init(d), "mirror cell of a device port");
+            } else if x >= 0xFE00 {
+                assert!(unsafe { LAST.is_none() }, "write at an unowned port reached a device");
+                assert!(sim.mem[x] == before_x, "write to an unowned port changed memory");
+            } else {
+                assert!(sim.mem[x] == Word::new_init(d), "ordinary memory write");
+            }
+            if !(mapped && x == ra) {
+                assert!(sim.pc == pc0 && sim.psr().get() == psr0 && sim.verif_saved_sp().get() == ssp0, "write changed an internal register it is not mapped to");
+            }
+            std::mem::forget(r);
+        }
+        // unmapping undoes the mapping
+        assert!(sim.munmap_internal(ra) == mapped, "munmap_internal result");
+        crate::nd_cover!(mapped && x == ra && added && port == ra, "register and device on the same address");
+        crate::nd_cover!(!do_write && added && x == port && !(mapped && x == ra), "device read");
+        crate::nd_cover!(do_write && x >= 0xFE00 && !(mapped && x == ra) && !(added && x == port), "write to an unowned port");
+        assert_mem_ok();
+        std::mem::forget(sim);
+    }
+
+    crate::harnesses! {
+        #[kani::unwind(10)]
+        #[kani::stub(std::hash::RandomState::new, crate::kstep::stub_random_state)]
+        #[kani::stub(<std::hash::DefaultHasher as std::hash::Hasher>::write, crate::kstep::stub_hasher_write)]
+        #[kani::stub(<std::hash::DefaultHasher as std::hash::Hasher>::finish, crate::kstep::stub_hasher_finish)]
+        #[kani::stub(<lc3_ensemble::sim::mem::MemArray as std::ops::Index<u16>>::index, crate::kstep::stub_mem_index)]
+        #[kani::stub(<lc3_ensemble::sim::mem::MemArray as std::ops::IndexMut<u16>>::index_mut, crate::kstep::stub_mem_index_mut)]
+        #[kani::stub(lc3_ensemble::sim::device::BufferedKeyboard::try_input, super::stub_try_input)]
+        #[kani::stub(lc3_ensemble::sim::device::BufferedDisplay::try_output, super::stub_try_output)]
+        fn c32_mmio_precedence() { body() }
+    }
+}
